@@ -346,6 +346,7 @@ pub(crate) mod verif_d {
     /// must leave the recorded maximum at 30 (or more), otherwise the depth guard accepts targets
     /// whose histories were already pruned relative to block 30.
     #[kani::proof]
+    #[kani::stub(alloc::fmt::format, format_stub)]
     fn d7_recorded_max_monotone() {
         let ctl = rocksdb::Ctl::leak();
         let mut db = with_recorded_max(ctl, "30");
@@ -365,6 +366,7 @@ pub(crate) mod verif_d {
     }
     /// ... and it does follow a new highest block
     #[kani::proof]
+    #[kani::stub(alloc::fmt::format, format_stub)]
     fn d7_recorded_max_follows() {
         let ctl = rocksdb::Ctl::leak();
         let mut db = with_recorded_max(ctl, "30");
@@ -387,6 +389,7 @@ pub(crate) mod verif_d {
     // --------------------------------------------------------------------------------------- D11
     /// require_block_does_not_exist rejects iff the number or the hash is known (cached or stored).
     #[kani::proof]
+    #[kani::stub(alloc::fmt::format, format_stub)]
     fn d11_block_exists_guard() {
         let mut db = Brc20ProgDatabase::verif_model_blocks_only(None);
         let num_known_disk: bool = kani::any();
